@@ -26,6 +26,7 @@
 #include <soundswallower/s3file.h>
 #include <soundswallower/ckd_alloc.h>
 #include <soundswallower/mllr.h>
+#include <soundswallower/bin_mdef.h>
 #include <soundswallower/feat.h>
 
 enum { ST_IDLE, ST_STARTED, ST_ENDED };
@@ -79,14 +80,23 @@ static void op_grammar(actx *c)
 
 static void op_words(actx *c)
 {
-    static const char *en_ph[] = { "AA", "B", "K", "S", "T", "IY", "M", "OW", "N", "D" }, *fr_ph[] = { "aa", "bb", "kk", "ss", "tt", "ii", "mm", "oo", "nn", "dd" };
-    char w[40], ph[200] = ""; int n = vh_range(c->r, 1, 6), k, rv; char *lk;
+    char w[40], ph[200] = ""; int n = vh_range(c->r, 1, 6), k, rv; char *lk; bin_mdef_t *md = c->d->acmod->mdef;
     drop_iters(c);
     snprintf(w, sizeof(w), "zzword%ld_%d", vh_case, c->added);
-    for (k = 0; k < n; ++k) { strcat(ph, k ? " " : ""); strcat(ph, c->lang == VD_FR ? VH_PICK(c->r, fr_ph) : VH_PICK(c->r, en_ph)); }
+    /* any sequence over the model's non-filler phones: most two-phone beginnings do not occur in the dictionary */
+    for (k = 0; k < n; ++k) { int ci, g = 0; do { ci = (int)vh_below(c->r, (uint32_t)md->n_ciphone); } while (md->phone[ci].info.ci.filler && ++g < 50); strcat(ph, k ? " " : ""); strcat(ph, md->ciname[ci]); }
     vh_ctx("decoder_add_word"); rv = decoder_add_word(c->d, w, ph, (int)vh_below(c->r, 2));
     LOG(c, "add_word(%s)=%d ", w, rv);
     if (rv >= 0) { ++c->added; vh_count("words_added", 1); }
+    /* "usable immediately": half of the new words go straight into a grammar or an alignment text, and through a short utterance */
+    if (rv >= 0 && c->st != ST_STARTED && vh_chance(c->r, 0.5)) {
+        const char *g1 = c->lang == VD_FR ? "avance" : "go", *g2 = c->lang == VD_FR ? "dix" : "ten"; int gr; long nr; const int16_t *rec = vd_recording(c->lang == VD_FR ? 1 : 0, &nr);
+        if (vh_chance(c->r, 0.5)) { vh_ctx("decoder_set_align_text"); gr = decoder_set_align_text(c->d, vh_path("%s %s %s", g1, w, g2)); }
+        else { vh_ctx("decoder_set_jsgf_string"); gr = decoder_set_jsgf_string(c->d, vh_path("#JSGF V1.0; grammar w; public <w> = %s ( %s | %s ) [ %s ];", g1, w, g2, w)); }
+        LOG(c, "use_new_word=%d ", gr);
+        expect(c, gr == 0, "new_word_not_usable", "a grammar naming the word just added ('%s' = %s) is refused: %d", w, ph, gr);
+        if (gr == 0) { c->have_gram = 1; vh_ctx("decoder_start_utt"); if (decoder_start_utt(c->d) == 0) { vh_ctx("decoder_process_int16"); decoder_process_int16(c->d, (int16 *)rec, (size_t)(nr > 12000 ? 12000 : nr), 0, 0); vh_ctx("decoder_end_utt"); decoder_end_utt(c->d); vh_ctx("decoder_hyp"); (void)decoder_hyp(c->d, NULL); vh_ctx("decoder_alignment"); (void)decoder_alignment(c->d); c->st = ST_ENDED; ++c->utts; } vh_count("new_words_used_in_a_grammar", 1); }
+    }
     vh_ctx("decoder_lookup_word"); lk = decoder_lookup_word(c->d, w);
     if (rv >= 0) expect(c, lk != NULL, "added_word_not_found", "decoder_lookup_word(%s) is NULL right after decoder_add_word returned %d", w, rv);
     ckd_free(lk);
